@@ -167,6 +167,7 @@ EDITS = {
         ("rw06", "crates/lib/mimium-lang/src/compiler/mirgen/convert_qualified_names.rs", "                    ctx.push_scope();\n                    bind_match_pattern_locals(ctx, &arm.pattern);\n                    let body", "                    ctx.push_scope();\n                    let body", "verus", "resolve_walk"),
         ("rw07", "crates/lib/mimium-lang/src/compiler/mirgen/convert_qualified_names.rs", "                    let body = convert_expr(ctx, arm.body);\n                    ctx.pop_scope();\n                    crate::ast::MatchArm", "                    let body = convert_expr(ctx, arm.body);\n                    crate::ast::MatchArm", "verus", "resolve_walk"),
         ("rn10", "crates/lib/mimium-lang/src/compiler/mirgen/convert_qualified_names.rs", "            .any(|scope| scope.contains(&name))", "            .any(|scope| !scope.contains(&name))", "verus", "resolve_names"),
+        ("rn11", "crates/lib/mimium-lang/src/compiler/mirgen/convert_qualified_names.rs", "                let mut relative_path = ctx.current_module_context[..prefix_len].to_vec();", "                let mut relative_path = ctx.current_module_context[..1].to_vec();", "verus", "resolve_names"),
         ("ut01", "crates/lib/mimium-lang/src/ast/program.rs", "        if *visibility == Visibility::Public {\n            let exported_name", "        if *visibility != Visibility::Public {\n            let exported_name", "verus", "use_tables"),
         ("ut02", "crates/lib/mimium-lang/src/ast/program.rs", "            module_info.visibility_map.insert(exported_name, true);", "            module_info.visibility_map.insert(exported_name, true);\n            module_info.visibility_map.insert(mangled, true);", "verus", "use_tables"),
         ("ut03", "crates/lib/mimium-lang/src/ast/program.rs", "        module_info.use_alias_map.insert(alias_name, mangled);\n\n", "        module_info.use_alias_map.insert(mangled, alias_name);\n\n", "verus", "use_tables"),
